@@ -221,9 +221,16 @@ def r13_4_5(ctx: Ctx) -> None:
     ctx.ob("R13.5", HMMER, new_group[0] if new_group else loop, "remove_overlapping", "group boundary", ok,
            "a new group starts, and the extent is reset, only when the next hit starts beyond the extent minus the limit",
            form="; ".join(stmt_key(u) for u in new_group))
-    srt = [txt(v) for v in bound_from(func, "hits")]
-    ctx.ob("R13.5", HMMER, func, "remove_overlapping", "sweep sorted by start", "sorted(hits, key=lambda hit: hit.protein_start)" in srt,
-           "the grouping sweep runs over hits sorted by start", form=str(srt))
+    ok = False
+    srt = []
+    for v in bound_from(func, "hits"):
+        srt.append(txt(v))
+        if isinstance(v, ast.Call) and call_name(v) == "sorted" and isinstance(kwarg(v, "key"), ast.Lambda):
+            body = kwarg(v, "key").body
+            first = body.elts[0] if isinstance(body, ast.Tuple) and body.elts else body
+            ok = ok or txt(first).endswith(".protein_start")
+    ctx.ob("R13.5", HMMER, func, "remove_overlapping", "sweep sorted by start", ok,
+           "the grouping sweep runs over hits sorted by start (ties may be broken by further keys)", form=str(srt))
     rk = ctx.fn(HMMER, "remove_overlapping.ranking_stats")
     ret = [r for r in walk_local(rk) if isinstance(r, ast.Return)]
     ok = len(ret) == 1 and txt(ret[0].value) == "(normalised[hit], 1 / len(hit), hit.protein_start, hit.identifier)"
